@@ -132,7 +132,12 @@ func runC16(c *Ctx) {
 	for _, f := range []string{he, rr, cl + "run"} {
 		c.HasNot(r5, f, "no goroutine per event/message", `^go:`)
 	}
-	c.R.Floor(r5, 14)
+	// INTERRUPT reaches the handler's context: the cancel function of every new invocation is recorded before its
+	// goroutine starts, and the INTERRUPT handler calls the one recorded under the interrupted request
+	c.Reach(r5, hi, "kill switch recorded for every new invocation before its goroutine starts", ReachSpec{Stop: `^mapupdate:%c\.invHandlerKill\[%msg\.Request\]=local:cancel$`, Target: goH, Want: false})
+	hint := cl + "runHandleInterrupt"
+	c.Has(r5, hint, "INTERRUPT cancels the context recorded for that request", `^call:dyn:%c\.invHandlerKill\[%msg\.Request\],ok#0\(\)$`, 1)
+	c.R.Floor(r5, 16)
 }
 
 func pubNoAck(api string) []ir.Clause {
